@@ -108,10 +108,6 @@ func (rndb *RowNamespaceDataBlock) Populate(ctx context.Context, eds eds.Accesso
 
 func (rndb *RowNamespaceDataBlock) UnmarshalFn(root *share.AxisRoots) UnmarshalFn {
 	return func(cntrData, idData []byte) error {
-		if !rndb.Container.IsEmpty() {
-			return nil
-		}
-
 		rndid, err := shwap.RowNamespaceDataIDFromBinary(idData)
 		if err != nil {
 			return fmt.Errorf("unmarhaling RowNamespaceDataID: %w", err)
@@ -134,6 +130,11 @@ func (rndb *RowNamespaceDataBlock) UnmarshalFn(root *share.AxisRoots) UnmarshalF
 			return fmt.Errorf("validating RowNamespaceData for %+v: %w", rndb.ID, err)
 		}
 
+		// a Block that is populated already keeps what it has, but whatever else arrives for
+		// its identifier is still verified: the hasher must not vouch for data nobody looked at
+		if !rndb.Container.IsEmpty() {
+			return nil
+		}
 		rndb.Container = cntr
 		return nil
 	}
